@@ -1,2 +1,42 @@
-(* C18 -- statement file *)
-From SV Require Import Rx.Syntax.
+(* C18 -- parsing cost grows polynomially with input size.  PARTIAL: what is proved bounds the number of
+   iterations of every hand-written loop and the depth of the matcher's recursion by the size of the
+   input; the number of steps of the backtracking matcher (the time of one regular-expression match) is
+   NOT bounded by any theorem here - that part of the property is decided by a timing experiment only.
+
+   Every loop of the model runs on explicit fuel, and the fuel the model hands to a loop is the length of
+   what it scans plus one (parse_loop (S (length input)), ext_loop (S (length s)), the filter loops get
+   the remaining length, bt gets (length s + 2) * (size of the pattern + 2)).  "The loop never reports
+   OutOfFuel" therefore says: it stops within that many iterations, for every input. *)
+From Coq Require Import ZArith NArith List Bool.
+From SV Require Import Base.Py Rx.Syntax Rx.Lemmas Gen.Generated Sess.Model Sess.Total Filt.Text Filt.Total Schema.Model Schema.Total.
+Import ListNotations.
+
+(* receive: the message loop over the buffer stops within length(buffer)+1 rounds in every reachable state *)
+Theorem C18_partial_receive_loop_is_linear :
+  forall d s data s' o, good s -> receive d s data = (s', o) ->
+  (exists ms, o = ORetMsgs ms) \/ (exists p, o = OProtoErr p).
+Proof. exact receive_total. Qed.
+
+(* the filter parser: the loops over filter items, substring parts and escapes stop within the remaining length *)
+Theorem C18_partial_filter_loops_are_linear :
+  forall d s, match from_string d s with FOk _ | FErr (FSyn _ _) => True | FErr (FCrash _) => False end.
+Proof. exact from_string_total. Qed.
+
+(* the schema parsers: the extension loops and the re.sub scans stop within the length of the text *)
+Theorem C18_partial_schema_loops_are_linear :
+  (forall s, benign (oc_from_string s)) /\ (forall s, benign (at_from_string s)) /\ (forall s, benign (dcr_from_string s)).
+Proof. exact (conj oc_from_string_total (conj at_from_string_total dcr_from_string_total)). Qed.
+
+(* the matcher: along every chain of nested calls the input shrinks or the pattern does, so the recursion is never
+   deeper than size(pattern) + length(input) - for EVERY pattern.  (Depth, not the number of calls.) *)
+Theorem C18_partial_matcher_depth_is_linear :
+  forall fuel r s pos cs k,
+  (rsize r + length s < fuel)%nat ->
+  (forall s1 p1 c1, (length s1 <= length s)%nat -> (p1 + length s1 = pos + length s)%nat -> k s1 p1 c1 <> BFuel) ->
+  bt fuel r s pos cs k <> BFuel.
+Proof. exact bt_no_fuel. Qed.
+
+Print Assumptions C18_partial_receive_loop_is_linear.
+Print Assumptions C18_partial_filter_loops_are_linear.
+Print Assumptions C18_partial_schema_loops_are_linear.
+Print Assumptions C18_partial_matcher_depth_is_linear.
